@@ -3,7 +3,7 @@
 From Coq Require Import List Arith Bool.
 From PG Require Import Base.ListSet Graph.MGraph C08.Model C09.Model C09.Oracle C09.Spec C09.Proofs C09.Bounded_n3 C09.Bounded_n4 C09.Bounded C09.Refuted C09.Cover C09.Ext
                        C08.Spec C09.Component C09.Whole C09.WholeExample C09.ChordalDefs C09.Chordal_b5 C09.HypsB
-                       C08.Reflect C08.Chordal C08.ChordalOrient C09.ChordalAll C08.Proofs C09.Rounds C09.Meek4Elim C09.Meek4Forest C09.Meek4CT.
+                       C08.Reflect C08.Chordal C08.ChordalOrient C09.ChordalAll C08.Proofs C09.Rounds C09.Meek4Elim C09.Meek4Forest C09.Meek4CT C09.Meek4Chordal.
 Import ListNotations.
 
 (* unbounded, every mark graph: nodes, adjacencies, arrowheads and tails kept, circles resolved, no circle left *)
@@ -217,3 +217,22 @@ Theorem p2m_shape_all_sizes_cliques_and_trees_partial : forall g,
                  arrow_at g a c = true /\ arrow_at g b c = true).
 Proof. exact p2m_shape_ct_partial. Qed.
 Print Assumptions p2m_shape_all_sizes_cliques_and_trees_partial.
+
+(* ---- MEEK'S THEOREM 4 ON CHORDAL SKELETONS, ALL SIZES (C09/Meek4Chordal.v; proof by induction on the node set: remove a
+   simplicial node outside {a, b}, order the rest, re-insert it right after its last-eliminated directed child) ----
+   a PDAG closed under R1-R4 with a v-structure-free consistent extension keeps one after hand-orienting ANY undirected edge
+   (the existence of the extension already makes the skeleton chordal, so the statement holds for every skeleton class) *)
+Theorem meek4_holds_on_chordal : meek4_on chordal_skel.
+Proof. exact (meek4_chordal_any chordal_skel). Qed.
+Print Assumptions meek4_holds_on_chordal.
+
+(* the three shape clauses of the property for ALL sizes with only the PAG invariants and a chordal circle component *)
+Theorem p2m_shape_all_sizes_chordal_unconditional : forall g,
+  pag_hyps g -> pwf (temp_cpdag g) -> chordal_g (temp_cpdag g) ->
+  let m := pag_to_mag_model g in
+  acyclic m /\
+  (forall a b, has_b m a b = true -> dpath m a b -> False) /\
+  (forall a c b, arrow_at m a c = true -> arrow_at m b c = true -> a <> b -> adjacent m a b = false ->
+                 arrow_at g a c = true /\ arrow_at g b c = true).
+Proof. exact (fun g => p2m_shape_meek4 g (meek4_chordal_any chordal_skel)). Qed.
+Print Assumptions p2m_shape_all_sizes_chordal_unconditional.
